@@ -29,7 +29,7 @@ pub enum StackOp {
     Drain(u16),
 }
 
-fn stack_op() -> impl Strategy<Value = StackOp> {
+pub fn stack_op() -> impl Strategy<Value = StackOp> {
     let near = prop_oneof![Just(0u16), Just(1), Just(2), Just(15), Just(16), Just(17), Just(1022), Just(1023), Just(1024), Just(1025), 0u16..1100];
     prop_oneof![
         4 => word().prop_map(StackOp::Push),
@@ -54,7 +54,7 @@ fn be_words(slice: &[u8]) -> Vec<U256> {
     slice.chunks(32).map(U256::from_be_slice).collect()
 }
 
-fn c12_case(ops: &Vec<StackOp>) -> CaseResult {
+pub fn c12_case(ops: &Vec<StackOp>) -> CaseResult {
     let mut st = Stack::new();
     let mut model: Vec<U256> = Vec::new();
     let (mut over, mut under) = (false, false);
